@@ -570,7 +570,7 @@ FUNCTION_PROPERTIES = {
 FEATURE_INDEPENDENT = {"C01", "C02", "C03", "C04", "C05", "C06", "C07", "C08", "C09", "C10", "C11", "C13", "C16", "C17"}
 
 # properties part of whose code is not under contract: fixed bounded scenarios stand in (labelled bounded)
-ALWAYS_STAND_IN = {"C17": ["blocking_timeout", "blocking_api"]}
+ALWAYS_STAND_IN = {"C17": ["blocking_timeout", "blocking_api"], "C10": ["blocking_timeout"], "C13": ["blocking_timeout", "blocking_api"]}
 # fixed scenarios that stand in when a property's text is undecided by extraction (besides the schedule explorer)
 _DD = ["dd_cycles", "dd_no_residue", "dd_cycle_first_edge_parked"]
 UNDECIDED_STAND_IN = {
